@@ -240,6 +240,10 @@ impl ClientManager {
 }
 #[verifier::external_body]
 pub struct Metrics { x: u8 }
+impl System {
+    // repair F70: disconnects the clients of the user (units client_disconnect / user_disconnect); touches the client manager only
+    #[verifier::external_body] pub fn delete_clients_for_user(&self, user_id: u32) { unimplemented!() }
+}
 impl Metrics {
     #[verifier::external_body] pub fn increment_users(&self, n: u32) { unimplemented!() }
     #[verifier::external_body] pub fn decrement_users(&self, n: u32) { unimplemented!() }
